@@ -594,7 +594,7 @@ def _tailify(helper, retname: str):
     return h
 
 
-def _expand(helper, call, caller, cls, target_names: set, mode: str):
+def _expand(helper, call, caller, cls, target_names: set, mode: str, tuple_targets=None):
     """Statements replacing the call; mode in {'expr', 'value', 'tail'}.  Returns (stmts, result expr) or None."""
     static = any(ast.unparse(d) in ("staticmethod",) for d in helper.decorator_list)
     bound = _bind(helper, call, bool(cls), static)
@@ -607,6 +607,36 @@ def _expand(helper, call, caller, cls, target_names: set, mode: str):
         h2 = _tailify(helper, retname)
         if h2 is None:
             return None
+        if tuple_targets:
+            # `a, b = h()` with every result a tuple display: the elements are assigned where they are produced
+            k = len(tuple_targets)
+            assigns = [x for x in ast.walk(h2) if isinstance(x, ast.Assign) and len(x.targets) == 1 and isinstance(x.targets[0], ast.Name) and x.targets[0].id == retname]
+            def order_safe(x):
+                # t1 = v1; t2 = v2; ...: no later value may read an earlier target (all values are evaluated first in `t1, t2 = v1, v2`)
+                for j, v in enumerate(x.value.elts):
+                    if any(isinstance(n, ast.Name) and n.id in tuple_targets[:j] for n in ast.walk(v)):
+                        return False
+                return True
+            if assigns and all(isinstance(x.value, ast.Tuple) and len(x.value.elts) == k and order_safe(x) for x in assigns):
+                def split(block):
+                    out = []
+                    for st in block:
+                        if st in assigns:
+                            for t, v in zip(tuple_targets, st.value.elts):
+                                out.append(ast.copy_location(ast.Assign([ast.Name(t, ast.Store())], v, lineno=st.lineno), st))
+                            continue
+                        for fld in ("body", "orelse", "finalbody"):
+                            sub = getattr(st, fld, None)
+                            if isinstance(sub, list) and sub and isinstance(sub[0], ast.stmt):
+                                setattr(st, fld, split(sub))
+                        for hd in getattr(st, "handlers", []) or []:
+                            hd.body = split(hd.body)
+                        out.append(st)
+                    return out
+                h2.body = split(h2.body)
+                # the trailing `return ret` now stands for `return (a, b)`: the caller's unpacking is a no-op
+                h2.body[-1] = ast.copy_location(ast.Return(ast.Tuple([ast.Name(t, ast.Load()) for t in tuple_targets], ast.Load())), h2.body[-1])
+                ast.fix_missing_locations(h2)
         helper = h2
         rets = _returns(helper)
         target_names = set(target_names) | {retname}
@@ -665,6 +695,39 @@ def _expand(helper, call, caller, cls, target_names: set, mode: str):
     return pre + new, result
 
 
+def _first_call_in_test(test, helpers, cls, caller):
+    """(holder node, field, call expr) of a helper call that a test evaluates first and unconditionally (only plain
+    names / attributes / constants are evaluated before it), else None."""
+    def is_helper(e):
+        c = e.value if isinstance(e, ast.Await) else e
+        if not isinstance(c, ast.Call):
+            return False
+        nm = _callee_name(c, cls)[0]
+        return nm in helpers and helpers[nm] is not caller and isinstance(helpers[nm], ast.AsyncFunctionDef) == isinstance(e, ast.Await) \
+            and all(_simple_expr(a) for a in c.args) and not c.keywords
+
+    def walk(holder, field, e):
+        if is_helper(e):
+            return (holder, field, e)
+        if isinstance(e, ast.UnaryOp):
+            return walk(e, "operand", e.operand)
+        if isinstance(e, ast.BoolOp):
+            return walk(e, ("values", 0), e.values[0])
+        if isinstance(e, ast.Compare):
+            r = walk(e, "left", e.left)
+            if r is not None or not _simple_expr(e.left):
+                return r
+            for i, c in enumerate(e.comparators[:1]):
+                return walk(e, ("comparators", i), c)
+        return None
+    holder = ast.Module(body=[], type_ignores=[])
+    holder.test = test
+    r = walk(holder, "test", test)
+    if r is not None and r[0] is holder:
+        return None  # the whole test is the call: nothing is gained by a local
+    return r
+
+
 def _inline_in_block(stmts, helpers, caller, cls, rep: Report, failed: set):
     out = []
     changed = False
@@ -680,6 +743,24 @@ def _inline_in_block(stmts, helpers, caller, cls, rep: Report, failed: set):
             nb, ch = _inline_in_block(h.body, helpers, caller, cls, rep, failed)
             h.body = nb
             changed |= ch
+        # a helper call that is the first non-trivial thing an `if` test evaluates: hoisted into a local in front of the `if`
+        if isinstance(st, ast.If):
+            found = _first_call_in_test(st.test, helpers, cls, caller)
+            if found is not None:
+                holder, field, inner = found
+                core_call = inner.value if isinstance(inner, ast.Await) else inner
+                tmp = f"arg__{_callee_name(core_call, cls)[0].strip('_')}"
+                if tmp not in _local_names(caller):
+                    pre_st = ast.copy_location(ast.Assign([ast.Name(tmp, ast.Store())], inner, lineno=st.lineno), st)
+                    name = ast.copy_location(ast.Name(tmp, ast.Load()), inner)
+                    if isinstance(field, tuple):
+                        getattr(holder, field[0])[field[1]] = name
+                    else:
+                        setattr(holder, field, name)
+                    ast.fix_missing_locations(pre_st)
+                    nb, _ch = _inline_in_block([pre_st], helpers, caller, cls, rep, failed)
+                    out.extend(nb)
+                    changed = True
         call = mode = None
         targets = set()
         val = getattr(st, "value", None) if isinstance(st, (ast.Expr, ast.Assign, ast.AnnAssign, ast.Return)) else None
@@ -735,7 +816,10 @@ def _inline_in_block(stmts, helpers, caller, cls, rep: Report, failed: set):
                 if exp and not isinstance(h.body[-1], (ast.Return, ast.Raise)):
                     exp = (exp[0] + [ast.copy_location(ast.Return(ast.Constant(None)), st)], None)
         else:
-            exp = _expand(h, call, caller, cls, targets, mode)
+            tt = None
+            if isinstance(st, ast.Assign) and len(st.targets) == 1 and isinstance(st.targets[0], ast.Tuple) and all(isinstance(e, ast.Name) for e in st.targets[0].elts):
+                tt = [e.id for e in st.targets[0].elts]
+            exp = _expand(h, call, caller, cls, targets, mode, tuple_targets=tt)
         if exp is None:
             failed.add(h.name)
             out.append(st)
@@ -887,6 +971,7 @@ def normalize(modules) -> Report:
                 ENUMS.add(n.name)
     from . import normalize2 as n2
     n2.desugar_match(modules, rep)
+    n2.extract_walrus(modules, rep)
     undo_moves(modules, known, rep)
     undo_renames(modules, known, rep)
     undo_attr_renames(modules, known, rep)
